@@ -56,6 +56,12 @@ def gen_case(rng, tier, damaged, single_ok=True):
                 "files": [["e0", 0, 0], ["one", n, rng.randrange(1 << 30)], ["z-empty", 0, 0]][rng.choice([0, 1]):]}
         if single_ok and rng.random() < 0.5:
             tree = {"name": "one", "single": True, "dirs": [], "layout": "tiny-total", "files": [["one", n, rng.randrange(1 << 30)]]}
+    elif c < 0.05:
+        # a directory torrent whose only file is called like the torrent itself (data/data, README/README): in a v2
+        # file tree it looks exactly like the single file 'data', only the payload tells them apart
+        nm = rng.choice(["data", "README", "x", "my torrent", "Ünï"])
+        tree = {"name": nm, "single": False, "dirs": [], "layout": "same-name-inside",
+                "files": [[nm, rng.choice([1, 5, pl - 1, pl, pl + 1, 3 * pl + 7, 40000]), rng.randrange(1 << 30)]]}
     version = rng.choice([1, 2, 3])
     if 0.05 <= c < 0.06:
         # a v1 torrent of several pieces every one of whose hashes is valid multi-byte UTF-8
@@ -594,11 +600,22 @@ class C16:
                 # whole is not all zero, it is removed or cut off inside its ordinary head
                 head, tail = rng.choice([1, pl, pl + 77, 2 * pl]), 0
                 island = rng.choice([1, 2, 3]) * pl + rng.choice([1, 500, 16384, 16385, pl // 2, pl - 1])
+            zlast = rng.random() < 0.3
+            if zlast:
+                # the zeros start inside the last-but-one piece of the file and run to its end (the short final piece is
+                # all zero); the file is cut inside the ordinary part of that last-but-one piece, so exactly the final
+                # piece is wholly absent
+                q = rng.choice([1, 2, 3])
+                r = rng.choice([1, 500, 16384, pl // 2, pl // 2 + 1, pl - 1])
+                head = (q - 1) * pl + rng.choice([2, 77, pl // 2, pl])
+                island, tail, ztail = q * pl + r - head, 0, False
             tree["files"][i][1] = head + island + tail
             tree["files"][i][2] = "zmid:%d:%d:%d" % (rng.randrange(1 << 30), head, head + island)
             tree["layout"] += "+zero-island"
             case["damage"] = [d for d in case["damage"] if d["file"] != i]
-            if ztail:
+            if zlast:
+                case["damage"].append({"file": i, "kind": "trunc", "to": rng.randint((q - 1) * pl + 1, head - 1)})
+            elif ztail:
                 case["damage"].append(rng.choice([{"file": i, "kind": "remove"},
                                                   {"file": i, "kind": "trunc", "to": rng.choice([0, head - 1, head // 2])}]))
             elif rng.random() < 0.6:
